@@ -2,11 +2,20 @@
 
 package iterable
 
+import "reflect"
+
 // VerifListStats walks the internal linked list of m and returns the number of
 // linked nodes (including the trailing sentinel), how many of them are marked
 // deleted and the sum of the iterator reference counts. It exists only in
 // builds with the `verif` tag (model-based verification harness, property C11).
 func VerifListStats[K comparable, V any](m *Map[K, V]) (nodes, deleted, refSum int) {
+	nodes, deleted, refSum, _ = VerifListStats2(m)
+	return
+}
+
+// VerifListStats2 additionally returns the number of linked nodes that hold no live entry (the
+// trailing sentinel and nodes marked deleted) but still reference a non-zero value.
+func VerifListStats2[K comparable, V any](m *Map[K, V]) (nodes, deleted, refSum, staleVals int) {
 	// the walk is bounded: a corrupted (cyclic) list must not hang the harness
 	for p := m.head; p != nil && nodes < 1<<20; p = p.next {
 		nodes++
@@ -14,6 +23,9 @@ func VerifListStats[K comparable, V any](m *Map[K, V]) (nodes, deleted, refSum i
 			deleted++
 		}
 		refSum += p.refCnt
+		if p.state != rlOk && !reflect.ValueOf(&p.val).Elem().IsZero() {
+			staleVals++
+		}
 	}
 	return
 }
